@@ -191,6 +191,19 @@ Proof. unfold only_wait_entries. apply Forall_app. Qed.
 (* a poll returning "time-out" (0): what the last poll of a segment reported *)
 Definition poll_result_of (x : Z * Z * list Z) : Z := fst (fst x).
 
+(* the most recent trace entry is the poll that produced the result *)
+Definition last_poll (new : list raw) (r : res (Z * Z * list Z)) : Prop :=
+  forall x, r = Ok x -> exists e rest t dt, new = e :: rest /\ poll_entry e = Some (t, poll_result_of x, dt).
+
+Lemma last_poll_app new more r : last_poll new r -> last_poll (new ++ more) r.
+Proof.
+  intros H x Hx. destruct (H x Hx) as [e [rest [t [dt [-> Hp]]]]].
+  exists e, (rest ++ more), t, dt. split; [reflexivity|assumption].
+Qed.
+
+Lemma last_poll_not_ok new (r : res (Z * Z * list Z)) : (forall x, r <> Ok x) -> last_poll new r.
+Proof. intros H x Hx. exfalso. exact (H x Hx). Qed.
+
 (* unlimited / zero time-out: poll again with the same argument until not interrupted *)
 Record unl_spec (T : Z) (s s' : os) (r : res (Z * Z * list Z)) (new : list raw) : Prop := {
   us_steps : steps s s' new;
@@ -199,7 +212,8 @@ Record unl_spec (T : Z) (s s' : os) (r : res (Z * Z * list Z)) (new : list raw) 
   us_fuel : r <> Bad 10;
   us_tmo : poll_timeouts new (fun t => t = to_msec T);
   us_mono : calm (o_script s) -> o_now s <= o_now s';
-  us_zero : T = 0 -> calm (o_script s) -> honest_up new -> o_now s' = o_now s
+  us_zero : T = 0 -> calm (o_script s) -> honest_up new -> o_now s' = o_now s;
+  us_last : last_poll new r
 }.
 
 Lemma poll_unlimited_spec fuel fds T : forall s r s',
@@ -219,7 +233,7 @@ Proof.
     assert (Hcalm : calm (o_script s) -> 0 <= dt /\ calm sc).
     { intros Hc. rewrite Hs in Hc. inversion Hc; subst. cbn in *. tauto. }
     destruct (interrupted (ret_, e, rev)) eqn:Ei.
-    + destruct (IH s1 r s' H2) as [new [Hsteps Honly Hni Hb Hpt Hmono Hz]].
+    + destruct (IH s1 r s' H2) as [new [Hsteps Honly Hni Hb Hpt Hmono Hz Hlast]].
       { unfold s1. cbn. rewrite Hs in Hf. cbn in Hf. lia. }
       exists (new ++ [entry]). constructor.
       * eapply steps_trans; eassumption.
@@ -233,6 +247,7 @@ Proof.
         assert (Hle : dt <= to_msec T * NS_PER_MS).
         { apply (Hh2 entry (to_msec T) ret_ dt); [now left|exact Hpe|subst T; cbn; lia]. }
         subst T. cbn in Hle. rewrite (Hz eq_refl Hc2 Hh1). cbn. lia.
+      * now apply last_poll_app.
     + inversion H2; subst. exists [entry]. constructor.
       * exact Hst.
       * constructor; [now left|constructor].
@@ -244,6 +259,7 @@ Proof.
         assert (Hle : dt <= to_msec T * NS_PER_MS).
         { apply (Hh entry (to_msec T) ret_ dt); [now left|exact Hpe|subst T; cbn; lia]. }
         subst T. cbn in *. lia.
+      * intros x Hx. inversion Hx; subst x. exists entry, [], (to_msec T), dt. split; [reflexivity|exact Hpe].
   - apply sys_poll_inv in H1. destruct H1 as [[ret_ [e [dt [rev [sc [Hs [Hr ->]]]]]]]|[Hr ->]].
     + subst r0. discriminate.
     + subst r0. exists []. constructor.
@@ -254,6 +270,7 @@ Proof.
       * apply poll_timeouts_nil.
       * lia.
       * reflexivity.
+      * apply last_poll_not_ok. discriminate.
 Qed.
 
 (* limited time-out: poll with the remaining budget; after an interruption re-read the clock *)
@@ -269,7 +286,8 @@ Record lim_spec (D : Z) (s s' : os) (r : res (Z * Z * list Z)) (new : list raw) 
   ls_upper : calm (o_script s) -> instant (o_script s) -> honest_up new -> o_now s' <= Z.max (o_now s) D;
   (* reports a time-out only when (to the millisecond) the deadline has come *)
   ls_lower : calm (o_script s) -> honest_lo new -> D - o_now s <= INT_MAX * NS_PER_MS ->
-             forall x, r = Ok x -> poll_result_of x = 0 -> D - NS_PER_MS < o_now s'
+             forall x, r = Ok x -> poll_result_of x = 0 -> D - NS_PER_MS < o_now s';
+  ls_last : last_poll new r
 }.
 
 Lemma poll_limited_spec fuel fds : forall d s r s',
@@ -321,7 +339,7 @@ Proof.
         set (s2 := upd s1 sc2 (o_now s1 + dt2) entry2) in *.
         assert (Hst2 : steps s1 s2 [entry2]) by (eapply steps_upd; exact Hs2).
         assert (Hsc2 : sc = EvNow dt2 :: sc2) by exact Hs2.
-        destruct (IH {| d_now := o_now s1 + dt2; d_deadline := D |} s2 r s' H22) as [new [Hsteps Honly Hni Hb Hpt Hptb Hmono Hup Hlo]].
+        destruct (IH {| d_now := o_now s1 + dt2; d_deadline := D |} s2 r s' H22) as [new [Hsteps Honly Hni Hb Hpt Hptb Hmono Hup Hlo Hlast]].
         { unfold s2. cbn. rewrite Hs in Hf. rewrite Hsc2 in Hf. cbn in Hf. lia. }
         { reflexivity. }
         cbn [d_deadline] in *.
@@ -351,6 +369,7 @@ Proof.
         -- intros Hc Hh Hrange x Hx Hz. destruct (Hcalm Hc) as [Hdt Hc1]. destruct (Hcalm2 Hc) as [Hdt2 Hc2].
            apply honest_lo_app in Hh. destruct Hh as [Hh1 _].
            apply (Hlo Hc2 Hh1) with (x := x); [lia|assumption|assumption].
+        -- now apply last_poll_app.
       * (* the clock read itself has no event: script does not fit *)
         unfold dl_tick in H21. apply bind_inv in H21.
         destruct H21 as [[now2 [s2' [Hn1 Hn2]]]|[r1 [Hn1 [Hn2 Hn3]]]]; [inversion Hn2; subst; discriminate|].
@@ -365,6 +384,7 @@ Proof.
         -- intros Hc. destruct (Hcalm Hc) as [Hdt _]. cbn. lia.
         -- intros Hc Hi Hh. specialize (Hup1 Hh). cbn. lia.
         -- intros _ _ _ x Hx. discriminate.
+        -- apply last_poll_not_ok. discriminate.
     + inversion H2; subst. exists [entry]. constructor.
       * exact Hst.
       * constructor; [now left|constructor].
@@ -387,6 +407,7 @@ Proof.
            assert (Ht0eq : t0 = dl_remaining d) by (unfold t0; apply to_msec_id; lia).
            rewrite Ht0eq in Hle. unfold NS_PER_MS in *. lia.
         -- unfold NS_PER_MS in *. lia.
+      * intros x Hx. inversion Hx; subst x. exists entry, [], t0, dt. split; [reflexivity|exact Hpe].
   - apply sys_poll_inv in H1. destruct H1 as [[ret_ [e [dt [rev [sc [Hs [Hr ->]]]]]]]|[Hr ->]].
     + subst r0. discriminate.
     + subst r0. exists []. constructor.
@@ -399,6 +420,7 @@ Proof.
       * lia.
       * intros. lia.
       * intros _ _ _ x Hx. discriminate.
+      * apply last_poll_not_ok. discriminate.
 Qed.
 
 Lemma poll_unlimited_bad fuel fds T : forall (s : os) w s',
@@ -444,7 +466,8 @@ Record wait_spec (T : Z) (s s' : os) (r : res (Z * Z * list Z)) (new : list raw)
   ws_upper : 0 <= T -> calm (o_script s) -> instant (o_script s) -> honest_up new ->
              o_now s' <= o_now s + T * NS_PER_MS;
   ws_lower : 0 < T <= INT_MAX -> calm (o_script s) -> honest_lo new ->
-             forall x, r = Ok x -> poll_result_of x = 0 -> o_now s + T * NS_PER_MS - NS_PER_MS < o_now s'
+             forall x, r = Ok x -> poll_result_of x = 0 -> o_now s + T * NS_PER_MS - NS_PER_MS < o_now s';
+  ws_last : last_poll new r
 }.
 
 Lemma do_poll_spec fds T s r s' :
@@ -456,7 +479,7 @@ Proof.
   apply script_fuel_inv in H1. destruct H1 as [Hfu ->]. inversion Hfu; subst fuel. clear Hfu.
   destruct (T <=? 0) eqn:ET.
   - apply Z.leb_le in ET.
-    destruct (poll_unlimited_spec _ fds T s r s' H2 ltac:(lia)) as [new [Hst Honly Hni Hb Hpt Hmono Hz]].
+    destruct (poll_unlimited_spec _ fds T s r s' H2 ltac:(lia)) as [new [Hst Honly Hni Hb Hpt Hmono Hz Hlast]].
     exists new. constructor; try assumption.
     + intros w Hw. subst r. destruct (poll_unlimited_bad _ _ _ _ _ _ H2) as [-> | ->]; [contradiction|now right].
     + intros HT. eapply poll_timeouts_weaken; [|exact Hpt]. intros t ->. now apply to_msec_neg.
@@ -478,7 +501,7 @@ Proof.
       { intros Hc. rewrite Hs in Hc. inversion Hc; subst. cbn in *. tauto. }
       assert (Hinst : instant (o_script s) -> dt0 = 0 /\ instant sc).
       { intros Hc. rewrite Hs in Hc. inversion Hc; subst. cbn in *. tauto. }
-      destruct (poll_limited_spec _ fds _ s1 r s' H3) as [new [Hsteps Honly Hni Hb Hpt Hptb Hmono Hup Hlo]].
+      destruct (poll_limited_spec _ fds _ s1 r s' H3) as [new [Hsteps Honly Hni Hb Hpt Hptb Hmono Hup Hlo Hlast]].
       { unfold s1. cbn. rewrite Hs. cbn. lia. }
       { reflexivity. }
       cbn [d_deadline d_now] in *.
@@ -503,6 +526,7 @@ Proof.
         apply honest_lo_app in Hh. destruct Hh as [Hh1 _].
         assert (Hl := Hlo Hc1 Hh1). cbn [o_now s1 upd] in Hl.
         specialize (Hl ltac:(unfold NS_PER_MS, INT_MAX in *; lia) x Hx Hz). unfold NS_PER_MS in *. lia.
+      * now apply last_poll_app.
     + (* the first clock read finds no event *)
       unfold dl_new in Hd. apply bind_inv in Hd.
       destruct Hd as [[now1 [s1' [Hn1 Hn2]]]|[r1 [Hn1 [Hn2 Hn3]]]]; [inversion Hn2; subst; discriminate|].
@@ -518,6 +542,142 @@ Proof.
       * lia.
       * intros. unfold NS_PER_MS. lia.
       * intros _ _ _ x Hx. discriminate.
+      * apply last_poll_not_ok. discriminate.
+Qed.
+
+(* DoPoll itself neither throws nor has undefined behaviour *)
+Definition abnormal {A} (r : res A) : Prop := (exists e, r = Exn e) \/ (exists u, r = Stuck u).
+
+Lemma poll_unlimited_normal k : forall fds T (s : os) r s',
+  poll_unlimited k fds T s = (r, s') -> ~ abnormal r.
+Proof.
+  induction k as [|k IH]; intros fds T s r s' H; cbn in H.
+  - inversion H; subst. intros [[e He]|[u Hu]]; discriminate.
+  - apply bind_inv in H. destruct H as [[x [s1 [Ha Hb]]]|[r0 [Ha [Hb Hc]]]].
+    + destruct (interrupted x); [eapply IH; eassumption|]. inversion Hb; subst. intros [[e He]|[u Hu]]; discriminate.
+    + apply sys_poll_inv in Ha. destruct Ha as [[? [? [? [? [? [_ [Hr _]]]]]]]|[Hr _]]; subst r0 r.
+      * discriminate.
+      * intros [[e He]|[u Hu]]; discriminate.
+Qed.
+
+Lemma poll_limited_normal k : forall fds d (s : os) r s',
+  poll_limited k fds d s = (r, s') -> ~ abnormal r.
+Proof.
+  induction k as [|k IH]; intros fds d s r s' H; cbn in H.
+  - inversion H; subst. intros [[e He]|[u Hu]]; discriminate.
+  - apply bind_inv in H. destruct H as [[x [s1 [Ha Hb]]]|[r0 [Ha [Hb Hc]]]].
+    + destruct (interrupted x).
+      * apply bind_inv in Hb. destruct Hb as [[d' [s3 [Hb1 Hb2]]]|[r0 [Hb1 [Hb2 Hb3]]]].
+        -- eapply IH; eassumption.
+        -- unfold dl_tick in Hb1. apply bind_inv in Hb1.
+           destruct Hb1 as [[now2 [s2' [Hn1 Hn2]]]|[r1 [Hn1 [Hn2 Hn3]]]]; [inversion Hn2; subst; discriminate|].
+           apply sys_now_inv in Hn1. destruct Hn1 as [[? [? [_ [Hr2 _]]]]|[Hr2 _]]; subst r1 r0 r; [discriminate|].
+           intros [[e He]|[u Hu]]; discriminate.
+      * inversion Hb; subst. intros [[e He]|[u Hu]]; discriminate.
+    + apply sys_poll_inv in Ha. destruct Ha as [[? [? [? [? [? [_ [Hr _]]]]]]]|[Hr _]]; subst r0 r.
+      * discriminate.
+      * intros [[e He]|[u Hu]]; discriminate.
+Qed.
+
+Lemma do_poll_normal fds T (s : os) r s' : do_poll fds T s = (r, s') -> ~ abnormal r.
+Proof.
+  unfold do_poll. intros H. apply bind_inv in H. destruct H as [[fuel [s0 [H1 H2]]]|[r0 [H1 [H2 H3]]]].
+  2:{ apply script_fuel_inv in H1. destruct H1 as [-> _]. discriminate. }
+  destruct (T <=? 0).
+  - eapply poll_unlimited_normal; eassumption.
+  - apply bind_inv in H2. destruct H2 as [[d [s1 [Hd H3]]]|[r0 [Hd [Hn Hr]]]].
+    + eapply poll_limited_normal; eassumption.
+    + unfold dl_new in Hd. apply bind_inv in Hd.
+      destruct Hd as [[now1 [s1' [Hn1 Hn2]]]|[r1 [Hn1 [Hn2 Hn3]]]]; [inversion Hn2; subst; discriminate|].
+      apply sys_now_inv in Hn1. destruct Hn1 as [[? [? [_ [Hr2 _]]]]|[Hr2 _]]; subst r1 r0 r; [discriminate|].
+      intros [[e He]|[u Hu]]; discriminate.
+Qed.
+
+(* ---- Wait(fd, events, timeout) and Wait(pfds, timeout) ----------------------------------------- *)
+Definition poll_status (x : Z * Z * list Z) : Z := poll_result_of x.
+
+Record waitfd_spec {A} (T : Z) (nothing : A -> bool) (s s' : os) (r : res A) (new : list raw) : Prop := {
+  wf_steps : steps s s' new;
+  wf_only : only_wait_entries new;
+  (* a failing wait is reported with the errno of poll — which is never EINTR *)
+  wf_exn : forall e, r = Exn e -> exists errno, e = SysErr errno /\ errno <> EINTR;
+  wf_bad : forall w, r = Bad w -> w = 1 \/ w = 2;
+  wf_stuck : forall u, r <> Stuck u;
+  (* "time-out exceeded" is reported exactly when the last poll returned 0 *)
+  wf_nothing : forall a, r = Ok a -> nothing a = true ->
+               exists e rest t dt, new = e :: rest /\ poll_entry e = Some (t, 0, dt);
+  wf_ready : forall a, r = Ok a -> nothing a = false ->
+             exists e rest t k dt, new = e :: rest /\ poll_entry e = Some (t, k, dt) /\ 0 < k;
+  wf_neg : T < 0 -> poll_timeouts new (fun t => t = -1);
+  wf_zero : T = 0 -> poll_timeouts new (fun t => t = 0);
+  wf_pos : 0 < T -> poll_timeouts new (fun t => 0 <= t <= INT_MAX) /\
+                    (calm (o_script s) -> poll_timeouts new (fun t => t <= T));
+  wf_mono : calm (o_script s) -> o_now s <= o_now s';
+  wf_upper : 0 <= T -> calm (o_script s) -> instant (o_script s) -> honest_up new ->
+             o_now s' <= o_now s + T * NS_PER_MS;
+  wf_lower : 0 < T <= INT_MAX -> calm (o_script s) -> honest_lo new ->
+             forall a, r = Ok a -> nothing a = true -> o_now s + T * NS_PER_MS - NS_PER_MS < o_now s'
+}.
+
+Lemma wait_fd_spec fd events T s r s' :
+  wait_fd fd events T s = (r, s') -> exists new, waitfd_spec T negb s s' r new.
+Proof.
+  unfold wait_fd. intros H. apply bind_inv in H.
+  destruct H as [[[[ret_ err] rev] [s1 [H1 H2]]]|[r0 [H1 [H2 ->]]]].
+  - destruct (do_poll_spec _ _ _ _ _ H1) as [new [Hst Honly Hni Hfu Hneg Hzero Hpos Hmono Hup Hlo Hlast]].
+    specialize (Hni _ eq_refl).
+    destruct (Hlast _ eq_refl) as [e [rest [t [dt [Hnew Hpe]]]]]. cbn in Hpe.
+    destruct (ret_ <? 0) eqn:En.
+    + apply Z.ltb_lt in En. inversion H2; subst. exists (e :: rest). constructor; try assumption; try discriminate.
+      * intros e0 He. inversion He; subst. exists err. split; [reflexivity|].
+        eapply interrupted_false_err; eassumption.
+    + apply Z.ltb_ge in En. inversion H2; subst. exists (e :: rest). constructor; try assumption; try discriminate.
+      * intros a Ha Hn. inversion Ha; subst a. rewrite negb_involutive in Hn. apply Z.eqb_eq in Hn. subst ret_.
+        exists e, rest, t, dt. split; [reflexivity|assumption].
+      * intros a Ha Hn. inversion Ha; subst a. rewrite negb_involutive in Hn. apply Z.eqb_neq in Hn.
+        exists e, rest, t, ret_, dt. split; [reflexivity|]. split; [assumption|lia].
+      * intros HT Hc Hh a Ha Hn. inversion Ha; subst a. rewrite negb_involutive in Hn. apply Z.eqb_eq in Hn. subst ret_.
+        apply (Hlo HT Hc Hh _ eq_refl). reflexivity.
+  - destruct (do_poll_spec _ _ _ _ _ H1) as [new [Hst Honly Hni Hfu Hneg Hzero Hpos Hmono Hup Hlo Hlast]].
+    exists new. destruct r0 as [x|e|w|u]; [discriminate| | |]; cbn [recast].
+    + exfalso. apply (do_poll_normal _ _ _ _ _ H1). left. eauto.
+    + constructor; try assumption; try discriminate.
+      intros w0 Hw. inversion Hw; subst. apply Hfu. reflexivity.
+    + exfalso. apply (do_poll_normal _ _ _ _ _ H1). right. eauto.
+Qed.
+
+
+Definition is_none {A} (o : option A) : bool := match o with None => true | Some _ => false end.
+
+Lemma wait_fds_spec fds T s r s' :
+  wait_fds fds T s = (r, s') -> exists new, waitfd_spec T is_none s s' r new.
+Proof.
+  unfold wait_fds. intros H. apply bind_inv in H.
+  destruct H as [[[[ret_ err] rev] [s1 [H1 H2]]]|[r0 [H1 [H2 ->]]]].
+  - destruct (do_poll_spec _ _ _ _ _ H1) as [new [Hst Honly Hni Hfu Hneg Hzero Hpos Hmono Hup Hlo Hlast]].
+    specialize (Hni _ eq_refl).
+    destruct (Hlast _ eq_refl) as [e [rest [t [dt [Hnew Hpe]]]]]. cbn in Hpe.
+    destruct (ret_ <? 0) eqn:En.
+    + apply Z.ltb_lt in En. inversion H2; subst. exists (e :: rest). constructor; try assumption; try discriminate.
+      intros e0 He. inversion He; subst. exists err. split; [reflexivity|].
+      eapply interrupted_false_err; eassumption.
+    + apply Z.ltb_ge in En. destruct (ret_ =? 0) eqn:Ez.
+      * apply Z.eqb_eq in Ez. subst ret_. inversion H2; subst. exists (e :: rest).
+        constructor; try assumption; try discriminate.
+        -- intros a Ha Hn. exists e, rest, t, dt. split; [reflexivity|assumption].
+        -- intros a Ha Hn. inversion Ha; subst a. discriminate.
+        -- intros HT Hc Hh a Ha Hn. apply (Hlo HT Hc Hh _ eq_refl). reflexivity.
+      * apply Z.eqb_neq in Ez. inversion H2; subst. exists (e :: rest).
+        constructor; try assumption; try discriminate.
+        -- intros a Ha Hn. inversion Ha; subst a. discriminate.
+        -- intros a Ha Hn. exists e, rest, t, ret_, dt. split; [reflexivity|]. split; [assumption|lia].
+        -- intros HT Hc Hh a Ha Hn. inversion Ha; subst a. discriminate.
+  - destruct (do_poll_spec _ _ _ _ _ H1) as [new [Hst Honly Hni Hfu Hneg Hzero Hpos Hmono Hup Hlo Hlast]].
+    exists new. destruct r0 as [x|e|w|u]; [discriminate| | |]; cbn [recast].
+    + exfalso. apply (do_poll_normal _ _ _ _ _ H1). left. eauto.
+    + constructor; try assumption; try discriminate.
+      intros w0 Hw. inversion Hw; subst. apply Hfu. reflexivity.
+    + exfalso. apply (do_poll_normal _ _ _ _ _ H1). right. eauto.
 Qed.
 
 End WithExt.
